@@ -75,16 +75,18 @@ Definition event_eqb (a b : event) : bool :=
 
 (* synctest: the fake clock advances, and synctest.Wait() returns, only when every goroutine of the bubble is
    durably blocked: receive loop in ReceiveMessage (or returned), sweeper in its select with no tick due and
-   stopCh open (or returned), every reply loop in ReadFrom on an open socket (or returned) *)
+   stopCh open (or returned), every reply loop in ReadFrom on an open socket (or returned); or a thread is
+   inside a slow logger.Close (the harness can make the fake logger sleep), i.e. between ACloseLog and ACloseDel *)
 Definition quiescent (s : state) : bool :=
-  (match rl s with RWait | RDone => true | _ => false end) &&
+  (match rl s with RWait | RDone => true | RClose (_, Some (_, true)) _ => true | _ => false end) &&
   (match sw s with
    | SWait => negb (next_tick s <=? now s) && negb (stopped s)
    | SDone => true
+   | SClose (_, Some (_, true)) => true
    | _ => false
    end) &&
   forallb (fun en => match e_pc en with
-                     | PNone | PDone => true
+                     | PNone | PDone | PC3 => true
                      | PRead => Nat.eqb (e_closes en) 0
                      | _ => false
                      end) (heap s).
